@@ -222,11 +222,16 @@ CloseRef ==
   /\ stack' = Pop(stack)
   /\ Spend /\ Same(<<den, sec, lctx, pos, flags, done>>)
 
-\* re-use of a name defined earlier: <ref name=.. />  (no visible word of its own)
+\* re-use of a name: <ref name=.. />  (no visible word of its own).  Either a name defined earlier,
+\* or — once — the name the NEXT named definition will get (use before definition, as infoboxes
+\* do); End is then only possible after that definition has been written.
+ForwardUses == {i \in 1..Len(out) : out[i].t = "ro" /\ out[i].b = 2 /\ out[i].a > NamedDefs}
 ReuseRef ==
   /\ InInline /\ Room(1) /\ CanStep /\ ~InRef /\ ~InLink /\ ~InHead /\ ~InPre /\ ~Has("cap")
   /\ (Last.t \in {"w", "sc", "lc", "ec"} \/ PlainLo(Last))
-  /\ \E n \in 1..NamedDefs : out' = Append(out, Tok("ro", n, 2))
+  /\ \E n \in 1..(NamedDefs + 1) :
+       /\ n = NamedDefs + 1 => (NamedDefs < 2 /\ ForwardUses = {} /\ fuel > CloseCost + 8)
+       /\ out' = Append(out, Tok("ro", n, 2))
   /\ Spend /\ Same(<<den, stack, sec, lctx, pos, flags, done>>)
 
 (* ---------------------------------------------------------------- line level *)
@@ -463,6 +468,7 @@ Lexeme ==
 
 -----------------------------------------------------------------------------
 End == /\ ~done /\ AtBol /\ stack = <<>> /\ (Len(out) >= MinOut \/ fuel <= 2) /\ den # <<>>
+       /\ ForwardUses = {}
        /\ done' = TRUE
        /\ flags' = NoEmptySection
        /\ Same(<<out, den, stack, sec, lctx, pos, fuel>>)
